@@ -152,3 +152,27 @@ def check(run, prog, tier):
            what="HAS_CMD_TURN set by %s / cleared by %s" % (sorted(setters), sorted(clearers)))
     run.ob("C12-c", "bit-readers", readers <= {"get_user_command"}, "read by %s (command() issued from LPC goes through process_command and never consults the turn)" % sorted(readers), guc.file, None, None,
            what="HAS_CMD_TURN consulted outside get_user_command: %s" % sorted(readers))
+
+    # ---- C12-e the round-robin cursor moves past the served user before the command can run
+    run.rule("C12-e", "get_user_command(): on every path from the consumption of a turn to its return the scan cursor (the variable indexing all_users in the scan) is advanced inside get_user_command itself, i.e. before the command runs and can leave by longjmp; skipped slots advance it too", 2)
+    subs = [(b, i, n) for b, i, n in guc.nodes() if n.get("k") == "Sub" and strip(n["b"]).get("n") == "all_users" and strip(n["i"]).get("k") == "Ref" and strip(n["i"]).get("d") in ("slocal", "static", "global")]
+    run.need(subs, "all_users[<cursor>] in get_user_command")
+    cur = strip(subs[0][2]["i"]).get("n")
+    # direct stores, and calls of functions that store the cursor
+    writers = {f.name for f in prog.functions() for b, i, n in f.nodes()
+               if ((n.get("k") == "Asg" and strip(n["L"]).get("n") == cur) or (n.get("k") == "Un" and n.get("op") in ("++", "--") and strip(n["e"]).get("n") == cur))
+               and strip(n["L"] if n.get("k") == "Asg" else n["e"]).get("d") in ("slocal", "static", "global")}
+    upd = set()
+    for b, i, n in guc.nodes():
+        if (n.get("k") == "Asg" and strip(n["L"]).get("n") == cur) or (n.get("k") == "Un" and n.get("op") in ("++", "--") and strip(n["e"]).get("n") == cur):
+            upd.add(b.id)
+        if n.get("k") == "Call" and n.get("fn") in writers - {"get_user_command"}:
+            upd.add(b.id)
+    retcmd = {b.id for b, i, n in guc.nodes() if n.get("k") == "Return" and n.get("e") is not None and const_val(n["e"]) != 0}
+    run.need(retcmd, "return of a command in get_user_command")
+    p = guc.reach_avoiding([cb.id], lambda blk: blk.id in retcmd, avoid_blocks=upd - {cb.id}) if cb.id not in upd else None
+    run.ob("C12-e", "advance-after-pick", p is None, "cursor `%s`: every path from the turn consumption to the return passes an advance (blocks %s)" % (cur, sorted(upd)) if p is None else "path %s returns the picked command with the cursor `%s` still on the served user: if the command raises an error the next scan starts with the same user again" % (p[:8], cur),
+           guc.file, cn.get("l"), "get_user_command", what="get_user_command returns a command without having advanced the round-robin cursor %s; an erroring command lets the same user be served first again (starvation of later users)" % cur)
+    others = sorted(writers - {"get_user_command"} - {w for w in writers if any(n.get("fn") == w for b, i, n in guc.calls())})
+    run.ob("C12-e", "cursor-writers", not others, "the cursor %s is written only by get_user_command (and helpers it calls): %s" % (cur, sorted(writers)), guc.file, guc.line, "get_user_command",
+           what="the round-robin cursor is also moved by %s" % others)
